@@ -11,7 +11,7 @@ use serde_json::{json, Value};
 use crate::common::{fnv, Engine, RunOutcome};
 use crate::rng::Rng;
 
-use prog::{gen_history, gen_program_w, Class, GenCfg, Op, Scenario, Step};
+use prog::{gen_history, gen_program_w, gen_program_x, Class, GenCfg, Op, Scenario, Step};
 
 pub struct BuildEngine;
 
@@ -21,11 +21,16 @@ fn cfg_for(config: &str) -> GenCfg {
     "td" => {}
     "td-exact" => { c.exact_only_pct = 100; }
     "bu-pure" => { c.bottom_up = 100; }
+    "bu-big" => { c.bottom_up = 100; c.big = true; }
+    "bu-big-allroots" => { c.bottom_up = 70; c.all_roots_td = true; c.big = true; }
+    "td-big" => { c.big = true; }
     "bu-allroots" => { c.bottom_up = 60; c.all_roots_td = true; }
     "bu-mixed" => { c.bottom_up = 60; c.td_between = true; }
     "td-checkerr" => { c.check_errors = true; }
     "bu-checkerr" => { c.check_errors = true; c.bottom_up = 70; c.all_roots_td = true; }
     "td-crash" => { c.crash = true; }
+    "x-hidden-td" | "x-overlap-td" | "x-cycle-td" | "x-any-td" => { c.class = Class::X; }
+    "x-hidden-bu" | "x-overlap-bu" | "x-cycle-bu" | "x-any-bu" => { c.class = Class::X; c.bottom_up = 50; c.td_between = true; }
     "td-replay" => { c.replays = 4; }
     "bu-replay" => { c.replays = 4; c.bottom_up = 60; c.all_roots_td = true; }
     "bu-mixed-replay" => { c.replays = 4; c.bottom_up = 50; c.td_between = true; }
@@ -48,7 +53,10 @@ impl Engine for BuildEngine {
 
   fn generate(&self, rng: &mut Rng, config: &str, _prop: &str) -> Scenario {
     let cfg = cfg_for(config);
-    let program = match cfg.class { _ => gen_program_w(rng, &cfg) };
+    let program = match cfg.class {
+      Class::X => { let want = match config { c if c.starts_with("x-hidden") => rng.below(2), c if c.starts_with("x-overlap") => 2, c if c.starts_with("x-cycle") => 3, _ => rng.below(4) }; gen_program_x(rng, &cfg, want) }
+      _ => gen_program_w(rng, &cfg),
+    };
     let (init, steps, faults) = gen_history(rng, &program, &cfg);
     Scenario { hash_seed: Some(rng.next()), program, init, steps, faults, replays: cfg.replays }
   }
